@@ -537,6 +537,32 @@ struct PreparedWasmSwapData {
     prepared_engine: Box<mimium_lang::runtime::wasm::engine::WasmEngine>,
 }
 
+/// Build the hot-swap payload for a freshly compiled WASM module exactly as
+/// `FileRunner::prepare_hot_swap_wasm_payload` does (prewarm + patch plan),
+/// without needing a running file watcher.
+#[cfg(all(feature = "verif-hooks", not(target_arch = "wasm32")))]
+pub fn verif_prepare_wasm_swap(
+    bytes: Vec<u8>,
+    previous_skeleton: Option<StateTreeSkeleton<StateType>>,
+    dsp_state_skeleton: Option<StateTreeSkeleton<StateType>>,
+    ext_fns: &[ExtFunTypeInfo],
+    plugin_fns: Option<mimium_lang::runtime::wasm::WasmPluginFnMap>,
+) -> Result<ProgramPayload, String> {
+    let prepared_swap_data = FileRunner::try_prewarm_wasm_global_state(&bytes, ext_fns, plugin_fns)?;
+    let state_patch_plan = FileRunner::build_required_state_patch_plan(
+        previous_skeleton,
+        dsp_state_skeleton.as_ref(),
+        prepared_swap_data.prewarmed_global_state.len(),
+    );
+    Ok(ProgramPayload::WasmModule {
+        bytes,
+        prepared_engine: prepared_swap_data.prepared_engine,
+        dsp_state_skeleton,
+        state_patch_plan,
+        prewarmed_global_state: prepared_swap_data.prewarmed_global_state,
+    })
+}
+
 struct FileWatcher {
     pub rx: mpsc::Receiver<notify::Result<Event>>,
     pub watcher: notify::RecommendedWatcher,
